@@ -119,9 +119,9 @@ Qed.
 
 Ltac bsolve :=
   repeat match goal with
-  | |- context [Nat.eqb ?a ?b] => destruct (Nat.eqb_spec a b); try lia
-  | |- context [Nat.ltb ?a ?b] => destruct (Nat.ltb_spec a b); try lia
-  end; simpl; try reflexivity; try lia.
+  | |- context [Nat.eqb ?a ?b] => destruct (Nat.eqb_spec a b); cbn [xorb andb orb negb]; try reflexivity
+  | |- context [Nat.ltb ?a ?b] => destruct (Nat.ltb_spec a b); cbn [xorb andb orb negb]; try reflexivity
+  end; try lia.
 
 (* step between rows y and y+1 with midpoint left of x *)
 Definition pe (ya xa yb xb y x : nat) : bool :=
@@ -132,13 +132,13 @@ Lemma pe_vertical ya xa yb xb y x :
   ~ (ya = S y /\ xa = x) -> ~ (yb = S y /\ xb = x) ->
   xorb (pe ya xa yb xb y x) (pe ya xa yb xb (S y) x) =
   xorb ((ya =? S y) && (xa <? x)) ((yb =? S y) && (xb <? x)).
-Proof. intros Hy Hx Ha Hb. unfold pe. bsolve. Qed.
+Proof. intros Hy Hx Ha Hb. unfold pe. destruct Hy as [->| ->], Hx as [->| ->]; bsolve. Qed.
 
 Lemma pe_horizontal ya xa yb xb y x :
   (yb = ya + 1 \/ ya = yb + 1) -> (xb = xa + 1 \/ xa = xb + 1) ->
   ~ (ya = y /\ xa = x) -> ~ (yb = y /\ xb = x) -> ~ (ya = y /\ xa = S x) -> ~ (yb = y /\ xb = S x) ->
   pe ya xa yb xb y x = pe ya xa yb xb y (S x).
-Proof. intros Hy Hx Ha Hb Ha' Hb'. unfold pe. bsolve. Qed.
+Proof. intros Hy Hx Ha Hb Ha' Hb'. unfold pe. destruct Hy as [->| ->], Hx as [->| ->]; bsolve. Qed.
 
 (* the step is the pair (yp, xp) -- (yq, xq), in either direction *)
 Definition ispq (yp xp yq xq ya xa yb xb : nat) : bool :=
